@@ -171,6 +171,7 @@ namespace Givaro {
     {
 			// Precondition A is invertible
             // Precondition l>=0
+        if (&G == &A) { Rep At; assign(At, A); return invmodpowx(G, At, l); } // G may be the same object as A
         Rep S, Am; init(S); init(Am);
         S.reserve(l.value()); Am.reserve(l.value());
 
